@@ -113,13 +113,13 @@ checks["C08"] = {"level": "model_checking",
  "bounds_thorough": "0/3/4 pairs, all device variants",
  "assumptions": VAM_ASSUME + ["caller obligations: flush/invalidate only while the allocation is mapped, balanced Map/Unmap, offset >= 0"], "outside": VAM_OUT + "; bind offsets chosen by the caller; image binds"}
 checks["C09"] = {"level": "model_checking",
- "jobs": [vjob("Verif_C09_Pages", [0, 1, 2, 3], [0, 1, 2, 3, 4, 5])],
- "bounds_quick": "vam's real granularity handler under the real TLSF and linear metadata (wired as deviceMemoryBlock.Init does): granularity 16 on a 256-byte block (3 operations TLSF / 2 linear) and granularity 1024 on a 2048-byte block (2 operations); sizes symbolic up to block+page, alignment 2^0..2*granularity, kinds one representative per conflict class (unknown, buffer, optimal image), lower and upper requests for linear; after every call no two live allocations of conflicting kinds share a page (conflict relation written from the property text)",
+ "jobs": [vjob("Verif_C09_Pages", [0, 1, 2, 3, 8, 9], [0, 1, 2, 3, 4, 5, 8, 9])],
+ "bounds_quick": "vam's real granularity handler under the real TLSF and linear metadata (wired as deviceMemoryBlock.Init does): granularity 16 on a 256-byte block (3 operations TLSF / 2 linear) and granularity 1024 on a 2048-byte block (2 operations); sizes symbolic up to block+page, alignment 2^0..2*granularity, kinds one representative per conflict class (unknown, buffer, optimal image), lower and upper requests for linear; after every call no two live allocations of conflicting kinds share a page (conflict relation written from the property text); page-boundary recipe on a 1024-byte block with granularity 512: three buffers tile the block (symbolic sizes), the middle one is freed, then one operation",
  "bounds_thorough": "one more operation, all five kinds, granularity 4096",
  "assumptions": ["default build"], "outside": "more operations; other granularities; defragmentation (the vam defragmentation harness keeps kinds unknown)"}
 checks["C10"] = {"level": "fault_enumeration",
- "jobs": [vjob("Verif_C10_Faults", [0, 32, 64, 96, 128, 160, 192], [0, 32, 64, 96, 128, 160, 192, 2, 34, 98])],
- "bounds_quick": "a fault-free history of 1 call, then one operation under fault injection: every fallible driver call (AllocateMemory, MapMemory, CreateBuffer, BindBufferMemory) asks a symbolic Boolean whether to fail (at most 1 fault; 2 for the multi-step operations), so every position first/k-th/last is covered by the solver. Operations: single block allocation, persistently mapped allocation, dedicated allocation, multi-allocation of 3, mapped dedicated multi-allocation of 3, pool creation with 2 minimum blocks, CreateBuffer. On failure: error not panic, caller Allocations unallocated and reusable (a fault-free allocation into them is accepted), every live device object owned by a block list or a live dedicated allocation, empty spare blocks within max(minBlockCount,1), existing allocations untouched, C02 and C04 equalities, no invalid driver call",
+ "jobs": [vjob("Verif_C10_Faults", [0, 32, 64, 96, 128, 160, 192, 224], [0, 32, 64, 96, 128, 160, 192, 224, 2, 34, 98])],
+ "bounds_quick": "a fault-free history of 1 call, then one operation under fault injection: every fallible driver call (AllocateMemory, MapMemory, CreateBuffer, BindBufferMemory) asks a symbolic Boolean whether to fail (at most 1 fault; 2 for the multi-step operations), so every position first/k-th/last is covered by the solver. Operations: single block allocation, persistently mapped allocation, dedicated allocation, multi-allocation of 3, mapped dedicated multi-allocation of 3, pool creation with 2 minimum blocks, CreateBuffer, Map after 0..3 map/unmap pairs (covers the call on which the mapping hysteresis flips). On failure: error not panic, caller Allocations unallocated and reusable (a fault-free allocation into them is accepted), every live device object owned by a block list or a live dedicated allocation, empty spare blocks within max(minBlockCount,1), existing allocations untouched, C02 and C04 equalities, no invalid driver call",
  "bounds_thorough": "history of 2 calls, 2 faults everywhere, atom-64 variant",
  "assumptions": VAM_ASSUME + ["fault kinds: VK_ERROR_OUT_OF_DEVICE_MEMORY for allocate/bind, VK_ERROR_MEMORY_MAP_FAILED for map, VK_ERROR_OUT_OF_HOST_MEMORY for create"], "outside": VAM_OUT + "; faults in GetMemoryRequirements2 / image paths"}
 checks["C11"] = {"level": "model_checking",
@@ -135,8 +135,8 @@ checks["C14"] = {"level": "model_checking",
  "bounds_quick": "the C08 scripts (hysteresis-crossing map/unmap and allocate/free sequences on allocations sharing a block) and the defragmentation run: every Map must return base(Memory()) + FindOffset() of the allocation's current location with the object mapped in the driver; after every event the memory behind persistent mappings and outstanding user maps is still mapped; persistently mapped allocations stay mapped after relocation",
  "bounds_thorough": "0/3/4 pairs, device variants",
  "assumptions": VAM_ASSUME + ["stores through the pointer are modelled as address ranges (pointer value + size), not simulated"], "outside": VAM_OUT}
-checks["C15"]["jobs"].append(vjob("Verif_C15_VDefrag", [0], [0, 32]))
-checks["C15"]["bounds_quick"] += " vam layer: final statistics of a complete run equal the moves carried out (" + VDEF + ")"
+checks["C15"]["jobs"] += [vjob("Verif_C15_VDefrag", [0], [0, 32]), vjob("Verif_C15_VReuse", [0, 32], [0, 32])]
+checks["C15"]["bounds_quick"] += " vam layer: a DefragmentationContext reused for a second run vs. a fresh one on an identical world (two worlds built from the same symbolic sizes); final statistics of a complete run equal the moves carried out (" + VDEF + ")"
 checks["C19"] = {"level": "model_checking",
  "jobs": [vjob("Verif_C19_Select", [0, 12], [0, 1, 4, 8, 12, 13, 2]), vjob("Verif_C19_Fallback", [0], [0, 2])],
  "bounds_quick": "memory type table of 3 types with symbolic 8-bit property flags (device-local, host-visible, coherent, cached, lazily-allocated, protected, AMD coherent/uncached), symbolic caller mask, requirement mask, usage mode 0..4, host-access flags, required and preferred flags, optional symbolic resource-usage word; discrete and integrated device, with and without the AMD extension; every clause of the statement is asserted against a specification written from the property text",
